@@ -433,7 +433,7 @@ def c09_3b(ck, prog):
     if not cb:
         raise AnalysisBroken('do_expiration: indirect expire_func call not found')
     head, body, bad, on_transfer = lib.loop_exits_only_when(
-        fn, r, 'expire-walk', lambda blk: (blk.get('term') or {}).get('kind') == 'WhileStmt',
+        fn, r, 'expire-walk', lambda blk: (blk.get('term') or {}).get('kind') in ('WhileStmt', 'ForStmt'),
         lambda ctx, frm: any(ctx.result_known(c) is False for c in cb), 'expire callback failed')
     Explorer(fn, on_transfer=on_transfer, calls='ALL', track='auto').run()
     if bad:
